@@ -1,6 +1,6 @@
 (* C10 — No call-breaking signature change goes unreported.  Property theorems only. *)
 From Coq Require Import List Arith Bool.
-From Verif Require Import Lib.Sexp Model.C10_kinds Gen.C10_tables Model.C10_diff Proofs.C10_diff.
+From Verif Require Import Lib.Sexp Model.C10_kinds Gen.C10_tables Model.C10_diff Proofs.C10_diff Proofs.C10_complete.
 Import ListNotations.
 Open Scope list_scope. Open Scope nat_scope.
 
@@ -52,3 +52,12 @@ Print Assumptions C10_complete_refuted_F6.
 Theorem C10_complete_refuted_F7 : exists old new n K, wf old = true /\ wf new = true /\ ~ complete_at old new n K.
 Proof. exact complete_refuted_F7. Qed.
 Print Assumptions C10_complete_refuted_F7.
+
+(* Completeness for ALL well-formed signature pairs and ALL call shapes (any number of positionals, any keyword names):
+   if CPython binds the call against old and rejects it against new, then something is reported -- unless the pair
+   satisfies one of the five decidable known-gap predicates (findings F2 F4 F5 F6 F7, each refuted above). *)
+Theorem C10_complete_modulo_known : forall old new n K,
+  wf old = true -> wf new = true -> binds old n K = true -> binds new n K = false ->
+  fdiff old new <> [] \/ known_gap old new = true.
+Proof. exact complete_modulo_known. Qed.
+Print Assumptions C10_complete_modulo_known.
